@@ -1,0 +1,80 @@
+//! Verification hooks. Only compiled with `--cfg ironplc_verif`; they observe
+//! and never change results (the step budget is off unless a harness sets it).
+use std::cell::{Cell, RefCell};
+
+use crate::common::{DataTypeDeclarationKind, Library, LibraryElementKind};
+
+thread_local! {
+    static TICKS: Cell<u64> = const { Cell::new(0) };
+    static BUDGET: Cell<u64> = const { Cell::new(0) };
+    static ARMED: Cell<bool> = const { Cell::new(false) };
+    static EVENTS: RefCell<Vec<(String, String)>> = const { RefCell::new(Vec::new()) };
+}
+
+/// Logical clock: one tick per parser element match.
+pub fn tick() {
+    let n = TICKS.with(|t| {
+        let n = t.get().wrapping_add(1);
+        t.set(n);
+        n
+    });
+    let budget = BUDGET.with(|b| b.get());
+    if budget != 0 && n > budget {
+        BUDGET.with(|b| b.set(0));
+        panic!("ironplc_verif: step budget exceeded");
+    }
+}
+
+pub fn ticks() -> u64 {
+    TICKS.with(|t| t.get())
+}
+
+/// Arms event recording on this thread, resets the clock and sets the step budget (0 = none).
+pub fn arm(budget: u64) {
+    TICKS.with(|t| t.set(0));
+    BUDGET.with(|b| b.set(budget));
+    ARMED.with(|a| a.set(true));
+    EVENTS.with(|e| e.borrow_mut().clear());
+}
+
+pub fn event(kind: &str, payload: String) {
+    if ARMED.with(|a| a.get()) {
+        EVENTS.with(|e| e.borrow_mut().push((kind.to_owned(), payload)));
+    }
+}
+
+pub fn drain() -> Vec<(String, String)> {
+    EVENTS.with(|e| e.borrow_mut().drain(..).collect())
+}
+
+/// Names of the top-level declarations, in order, as `kind:name` joined by blanks.
+pub fn decl_names(library: &Library) -> String {
+    let names: Vec<String> = library
+        .elements
+        .iter()
+        .map(|e| match e {
+            LibraryElementKind::DataTypeDeclaration(d) => {
+                let n = match d {
+                    DataTypeDeclarationKind::Enumeration(x) => &x.type_name,
+                    DataTypeDeclarationKind::Subrange(x) => &x.type_name,
+                    DataTypeDeclarationKind::Simple(x) => &x.type_name,
+                    DataTypeDeclarationKind::Array(x) => &x.type_name,
+                    DataTypeDeclarationKind::Structure(x) => &x.type_name,
+                    DataTypeDeclarationKind::StructureInitialization(x) => &x.type_name,
+                    DataTypeDeclarationKind::String(x) => &x.type_name,
+                    DataTypeDeclarationKind::LateBound(x) => &x.data_type_name,
+                };
+                format!("type:{}", n.name.lower_case())
+            }
+            LibraryElementKind::FunctionDeclaration(x) => format!("fn:{}", x.name.lower_case()),
+            LibraryElementKind::FunctionBlockDeclaration(x) => {
+                format!("fb:{}", x.name.lower_case())
+            }
+            LibraryElementKind::ProgramDeclaration(x) => format!("prg:{}", x.name.lower_case()),
+            LibraryElementKind::ConfigurationDeclaration(x) => {
+                format!("cfg:{}", x.name.lower_case())
+            }
+        })
+        .collect();
+    names.join(" ")
+}
